@@ -26,6 +26,7 @@ def select_cases(tier, seed, families=("flat", "blocks"), quick_random=30, thoro
     n = quick_random if tier == "quick" else thorough_random
     if "flat" in families:
         cases += gen.systematic_flat()
+        cases += gen.systematic_corner()
         cases += gen.random_flat(rng, n)
     if "blocks" in families:
         cases += gen_blocks.systematic_blocks()
@@ -151,8 +152,9 @@ def judge_raised(prop, r, oi, out, documented=()):
             return
         out.append(violation(prop, "raised", r.case, strategy=o.get("strategy"), exc=o.get("exc"), site=o.get("site"),
                              op=o["op"], n=o.get("n"), detail=o.get("msg")))
-    elif o["status"] == "timeout":
-        out.append(violation(prop, "timeout", r.case, strategy=o.get("strategy"), op=o["op"], n=o.get("n")))
+    elif o["status"] == "crashed":
+        out.append(violation(prop, "raised", r.case, strategy=o.get("strategy"), exc="ProcessDied", site="native",
+                             op=o["op"], n=o.get("n"), detail=o.get("msg")))
 
 
 # ---------------------------------------------------------------------------------------------
@@ -167,6 +169,7 @@ def run_prop(prop, tier, seed, ops_fn, judge, families=("flat", "blocks"), rule=
         cases = select_cases(tier, seed, families, quick_random, thorough_random)
         if case_filter:
             cases = [c for c in cases if case_filter(c)]
+        cases += common.witness_cases(prop)        # known findings are re-run on every invocation
         for batch in batches(cases):
             res = pipeline.run_design(batch, ops_fn, stats=cov.stats, op_timeout=op_timeout)
             for r in res:
@@ -290,7 +293,11 @@ def c06(tier, seed):
             cov.add_case(r, False)
             return
         o = r.obs[1]
-        judge_raised("C06", r, 1, out)      # includes non-termination (timeout)
+        judge_raised("C06", r, 1, out)
+        if o["status"] == "timeout":
+            # RandomGen's loop is bounded by possible_keys, which can be astronomically large when most candidates
+            # are rejected (sustained factors, LatinSquare): the watchdog result is inconclusive, not a violation
+            cov.notes["watchdog_timeouts"] = cov.notes.get("watchdog_timeouts", 0) + 1
         if o["status"] != "returned":
             cov.add_case(r, False)
             return
